@@ -1913,12 +1913,12 @@ func lSet(n *Nodis, conn *redis.Conn, cmd redis.Command) {
 		return
 	}
 	execCommand(conn, func() {
-		if index >= n.LLen(key) {
+		value := []byte(cmd.Args[2])
+		if !n.LSet(key, index, value) {
+			// no such key, or no such element (also below -len, which the length test did not see)
 			conn.WriteError("ERR index out of range")
 			return
 		}
-		value := []byte(cmd.Args[2])
-		n.LSet(key, index, value)
 		conn.WriteOK()
 	})
 }
